@@ -225,3 +225,11 @@ _add("C17", tech="cache-level sequential engine: whole-API programs against the 
      rule="Cache-level engine: one case = (configuration, operation sequence); non-trivial: at least 17 reads of live keys.")
 _add("C19", tech="slow streams: every Read of LoadCacheFrom may move the clock, so load time is an interval; separate relaxed engine with stream faults (truncation, failing Read, failing Write of the save): whatever is loaded must still be a saved, unexpired entry with its deadlines")
 _add("C07", tech="maxima beyond 32 bits and weights near 2^32")
+# round 4
+_add("C11", tech="concurrent rule refresh.fresh-entry-reloaded: a reload handed to the executor by a read is judged against the earliest possible refresh time of the old value it was given (found and repaired 48b862b)",
+     level="Concurrent engine: every reload a Get / BulkGet hands to the executor must be a reload of an entry whose refresh time could have passed ('reads of fresh entries trigger nothing' under any interleaving).")
+_add("C12", tech="concurrent form: at quiescence every table node's expiration and refresh time must equal (clock sample of an operation that could have set it) + (calculator duration), the sample bounded by the clock at the operation's invocation and return (rules deadline.unexplained-expiry / -refresh); two concurrent engines (expiry with clock steps and SetExpiresAfter; refresh with stalled / failing reloads on asynchronous executors)",
+     level="Two concurrent engines judge the deadlines every entry ends with, whatever the interleaving of writers, deadline-extending readers, overrides, reloads and clock steps was.",
+     rule="Concurrent engines: one case = (configuration with expiry or refresh, per-task programs) x one schedule; non-trivial: more than 4 context switches and at least one final deadline judged.")
+for _p in META:
+    META[_p]["technique"] += "; schedules drawn from random walk / PCT / bursts / windows / op-relative site-targeted preemption"
